@@ -336,6 +336,12 @@ func (e *env) isNonNegExpr(x ast.Expr) bool {
 						}
 					}
 				}
+				// an unsigned source of the same width wraps to a negative value (int(uint64(1<<63)) < 0)
+				if at, ok := e.info.Types[v.Args[0]]; ok {
+					if ab, ok := at.Type.Underlying().(*types.Basic); ok && ab.Info()&types.IsUnsigned != 0 && b.Info()&types.IsUnsigned == 0 {
+						return false
+					}
+				}
 				return e.isNonNegExpr(v.Args[0]) && sameOrWider(e.info, v.Args[0], b)
 			}
 		}
